@@ -110,26 +110,42 @@ class SimClock:
         return self.now
 
 
-class _RawWriter:
-    """`stream.buffer`: the binary layer of a simulated standard stream."""
+class _RawWriter(io.RawIOBase):
+    """`stream.buffer`: the binary layer of a simulated standard stream - a real io.RawIOBase, so that it can be
+    wrapped (io.TextIOWrapper(sys.stdout.buffer, ...)), flushed and 'closed' like the real thing.  Closing it does
+    not close the simulated stream: the harness still has to read what was written."""
 
     def __init__(self, owner):
+        super().__init__()
         self._owner = owner
 
     def write(self, b):
         return self._owner._write_bytes(bytes(b))
 
-    def flush(self):
-        return None
+    def writable(self):
+        return True
+
+    def readable(self):
+        return False
+
+    def seekable(self):
+        return False
 
     def fileno(self):
         return self._owner.fileno()
 
-    def writable(self):
-        return True
-
     def isatty(self):
         return self._owner.isatty()
+
+    def close(self):
+        return None
+
+    @property
+    def closed(self):
+        return False
+
+    def __del__(self):
+        pass
 
 
 class SimStream(io.TextIOBase):
@@ -151,6 +167,7 @@ class SimStream(io.TextIOBase):
         self.cancel = NO_CANCEL
         self.fail_at = None          # [n, exception]: raise at the n-th write from now
         self._fd = None
+        self._keep = None
         self._pid = None
         self._errors = "strict"
         self.buffer = _RawWriter(self)
@@ -165,8 +182,18 @@ class SimStream(io.TextIOBase):
                 f = tempfile.TemporaryFile()
                 self._fd = os.dup(f.fileno())
                 f.close()
+            self._keep = os.dup(self._fd)      # the harness' own handle: survives a close() of the public one
             self._pid = os.getpid()
         return self._fd
+
+    def renew(self):
+        """Between independent runs: if the code under test closed the stream's descriptor (e.g. through
+        `open(sys.stdout.fileno(), 'w')`), put the same descriptor number back, as a fresh process would have it."""
+        self._ensure()
+        try:
+            os.fstat(self._fd)
+        except OSError:
+            os.dup2(self._keep, self._fd)
 
     @property
     def encoding(self):
@@ -185,9 +212,9 @@ class SimStream(io.TextIOBase):
             self._errors = errors
 
     def _write_bytes(self, b):
-        fd = self._ensure()
-        os.lseek(fd, 0, os.SEEK_END)
-        os.write(fd, b)
+        self._ensure()
+        os.lseek(self._keep, 0, os.SEEK_END)      # (one open file description: the offset is shared)
+        os.write(self._fd, b)                     # EBADF here is what a real closed stdout would answer
         return len(b)
 
     def write(self, s):
@@ -231,19 +258,20 @@ class SimStream(io.TextIOBase):
 
     # -- what the checks read back
     def mark(self):
-        return os.fstat(self._ensure()).st_size
+        self._ensure()
+        return os.fstat(self._keep).st_size
 
     def since(self, mark):
-        fd = self._ensure()
-        size = os.fstat(fd).st_size
+        self._ensure()
+        size = os.fstat(self._keep).st_size
         if size <= mark:
             return ""
-        return os.pread(fd, size - mark, mark).decode("utf-8", "replace")
+        return os.pread(self._keep, size - mark, mark).decode("utf-8", "replace")
 
     def drop(self):
-        fd = self._ensure()
-        os.ftruncate(fd, 0)
-        os.lseek(fd, 0, os.SEEK_SET)
+        self._ensure()
+        os.ftruncate(self._keep, 0)
+        os.lseek(self._keep, 0, os.SEEK_SET)
 
 
 def run_command(argv):
@@ -252,13 +280,19 @@ def run_command(argv):
     Returns (exit_status, text_python_would_print_to_stderr, escaped_exception)."""
     import runpy
     old = sys.argv
+    old_exit = os._exit
+
+    def _simulated_exit(status=0):          # os._exit() would take the simulator down with it
+        raise SystemExit(status)
     sys.argv = list(argv)
+    os._exit = _simulated_exit
     try:
         try:
             runpy.run_module("graphtage", run_name="__main__", alter_sys=False)
             ret = None                     # fell off the end of the module: exit status 0
         finally:
             sys.argv = old
+            os._exit = old_exit
     except SystemExit as e:
         ret = e.code
     except BaseException as e:             # noqa: an uncaught exception: Python prints a traceback and exits 1
@@ -299,9 +333,11 @@ class Seams:
 
     def reinstall_streams(self):
         """For *independent-run* checks only: put the simulated streams back if graphtage (colorama) re-wrapped
-        them.  Never used inside an in-process history (C07 part B)."""
+        them, and their descriptors if graphtage closed them.  Never used inside an in-process history (C07 part B)."""
         sys.stdout = self.out
         sys.stderr = self.err
+        self.out.renew()
+        self.err.renew()
 
     def harness_print(self, *a):
         """The harness' own diagnostics bypass the simulated streams."""
